@@ -98,6 +98,7 @@ structure MParam where
   len : Nat := 0                 -- ulParameterLen (raw) / IV length
   kind : String := ""            -- "" raw, "gcm", "ctr", "oaep", "pss", …
   nums : List Nat := []          -- gcm: [ivLen, aadLen, tagBits]; ctr: [counterBits]; pss: [hash, mgf, sLen]; oaep: [hash, mgf]
+  raw : List Bytes := []         -- byte-string arguments: raw parameter / IV; ecdh: [public data]; str: [data]; cbcd: [iv, data]
   deriving Repr, DecidableEq, Inhabited
 
 /-! ### key sizes seen by the operations -/
